@@ -104,7 +104,7 @@ def tlsWithReader {R S : Type} (P : TlsParams R S) (key : FlowKey) (payload : By
   | (r', .pending) => .set key r' (.ret none)
   | (_, .err) => .remove key (.ret none)
 
-def tlsProg {R S : Type} (P : TlsParams R S) (s : Seg) :
+def tlsBody {R S : Type} (P : TlsParams R S) (s : Seg) :
     Prog FlowKey R Unit Unit (Option S) :=
   let key : FlowKey := ⟨s.src, s.dst⟩
   if s.payload.isEmpty then .ret none else
@@ -119,6 +119,12 @@ def tlsProg {R S : Type} (P : TlsParams R S) (s : Seg) :
             match r with
             | some r => tlsWithReader P key s.payload r
             | none => .ret none                -- "Failed to retrieve flow after insert" → Err → no result
+
+/-- `process_tcp_packet`: a SYN starts a new connection, so the reader an earlier connection on the same
+4-tuple left behind is dropped first (`tcp_flows.remove(&flow_key)`), then the segment is handled. -/
+def tlsProg {R S : Type} (P : TlsParams R S) (s : Seg) :
+    Prog FlowKey R Unit Unit (Option S) :=
+  if s.syn then .remove ⟨s.src, s.dst⟩ (tlsBody P s) else tlsBody P s
 
 /-- `TlsClientHelloReader`: buffer and the "signature already parsed" flag. -/
 structure Reader where
@@ -281,7 +287,7 @@ def httpWithFlow {γ Q P : Type} (H : HttpParams γ Q P) (stored : FlowKey) (isC
     .set stored f' (httpBody H stored isClient f' s)
   else httpBody H stored isClient f s
 
-def httpProg {γ Q P : Type} (H : HttpParams γ Q P) (s : Seg) :
+def httpDispatch {γ Q P : Type} (H : HttpParams γ Q P) (s : Seg) :
     Prog FlowKey TcpFlow γ (PRes Q P) (HttpOut Q P) :=
   let key : FlowKey := ⟨s.src, s.dst⟩
   let rkey : FlowKey := ⟨s.dst, s.src⟩
@@ -297,6 +303,17 @@ def httpProg {γ Q P : Type} (H : HttpParams γ Q P) (s : Seg) :
             -- `TcpFlow::init`: data carried by the SYN starts one past the initial sequence number
             .insert key ⟨s.src, s.dst, [⟨Huginn.HttpFlow.wadd s.seq 1, s.payload⟩], [], false, false, s.seq, none⟩ H.ttlMs (.ret {})
           else .ret {}
+
+/-- `process_tcp_packet`: a SYN without ACK opens a connection; a flow still stored for the 4-tuple (either
+direction) that was not opened by this very SYN (a retransmission carries the same sequence number) belongs to
+an earlier connection and is dropped first; then the segment is dispatched. -/
+def httpProg {γ Q P : Type} (H : HttpParams γ Q P) (s : Seg) :
+    Prog FlowKey TcpFlow γ (PRes Q P) (HttpOut Q P) :=
+  if s.syn && !s.ack then
+    .get ⟨s.src, s.dst⟩ fun f =>
+      if (f.map (·.clientIsn)) == some s.seq then httpDispatch H s
+      else .remove ⟨s.src, s.dst⟩ (.remove ⟨s.dst, s.src⟩ (httpDispatch H s))
+  else httpDispatch H s
 
 /-- HTTP connection identity: the unordered endpoint pair. -/
 def Ep.le (a b : Ep) : Bool := a.addr < b.addr || (a.addr == b.addr && a.port ≤ b.port)
